@@ -40,6 +40,19 @@ CLAIMED["C08"] = {
     "design_ref": "5 C08",
 }
 
+CLAIMED["C09"] = {
+    "technique": "Lean 4 proofs of component-wise lifting (Vector op = per-component Array op), component-count rejection, and the algebraic laws of scalar/vector product over Q by ring; correspondence of Vector expressions incl. dot/cross identities through phys",
+    "text": "C09_lift / C09_lift_array / C09_nvec_mismatch are proved for every operator, operand and unit table; dot3_comm, cross3_anticomm, dot3_cross3_self, lagrange are the point-wise laws (ring). The model's dot/cross (repaired unit rule) are tied to /repo by generated expressions whose outputs are compared exactly (exact lane) including a.(a x b)=0 and Lagrange on the implementation's outputs; the 1-component norm sign is a recorded known finding.",
+    "note": "trusted: Lean kernel + standard axioms; the link from the model's dot/cross data to dot3/cross3 of the physical components is by correspondence (theorem for same-shape operands planned); sqrt in norm compared squared (1e-5)",
+    "design_ref": "5 C09",
+}
+CLAIMED["C10"] = {
+    "technique": "Lean 4 theorems that the _wrap_numpy unit rule equals dimensional analysis per function class, with the membership obligations on the extracted APPLY_OP_TO_UNIT / dtype test re-proved each run; exhaustive-by-catalogue correspondence against numpy on raw values",
+    "text": "C10_classA/C/D and C10_classB_same_unit are proved for all unit tables; generated_classC + C02.generated_keeps_numeric re-prove against the current array.py that every transforming function of the catalogue is in APPLY_OP_TO_UNIT and every numeric dtype keeps its unit; C10_classB_mixes_witness proves the negation for multi-operand functions with different units (known finding). Tie: every catalogue function x unit assignment x dtype x keyword form on the real Array; values compared with numpy on the raw values.",
+    "note": "trusted: Lean kernel + standard axioms; numpy computes the values; the catalogue and its classes (NumpyUnits.lean)",
+    "design_ref": "5 C10",
+}
+
 NOT_YET = {
 }
 
